@@ -23,6 +23,7 @@ type c19Item struct {
 	Target   string // request-target as written on the wire
 	Body     []byte // nil = no body
 	Stream   func() (io.Reader, int64)
+	Chunked  bool   // the body arrives without a declared length (Transfer-Encoding: chunked)
 	Want4xx  string // non-empty: the property demands a 4xx answer; text says why
 	Hostile  bool   // carries a hostile name
 	Escapes  bool   // index name whose arena path would leave the data directory (finding D-C19-1 trigger)
